@@ -432,6 +432,31 @@ fn view(g: &Graph) -> View {
 
 async fn run_graph(mon: &Monitor, g: &Graph, idx: u64) {
     let eng = EigenTrustEngine::new(g.ids[..g.a].iter().cloned().collect());
+    // anchors are also announced at run time (a bootstrap node re-announced on reconnect, an anchor
+    // granted and revoked again): none of this changes WHO is an anchor, so nothing below may change
+    match idx % 4 {
+        1 => {
+            for a in &g.ids[..g.a] {
+                eng.add_pre_trusted(a.clone()).await;
+            }
+            mon.count("anchors.every-anchor-announced-again", 1);
+        }
+        2 if g.a > 0 => {
+            let a = &g.ids[(idx as usize / 4) % g.a];
+            for _ in 0..3 {
+                eng.add_pre_trusted(a.clone()).await;
+            }
+            mon.count("anchors.one-anchor-announced-three-more-times", 1);
+        }
+        3 if g.ids.len() > g.a => {
+            let x = &g.ids[g.ids.len() - 1];
+            eng.add_pre_trusted(x.clone()).await;
+            eng.add_pre_trusted(x.clone()).await;
+            eng.remove_pre_trusted(x).await;
+            mon.count("anchors.non-anchor-granted-twice-then-revoked", 1);
+        }
+        _ => {}
+    }
     for (x, y, ok) in &g.stmts {
         eng.update_local_trust(&g.ids[*x as usize], &g.ids[*y as usize], *ok).await;
     }
